@@ -25,5 +25,6 @@ func Run(cfg hx.Config) error {
 	runDistroless(r, rnd.Fork(), cfg)
 	runApk(r, rnd.Fork(), cfg)
 	runOsRelease(r, rnd.Fork(), cfg)
+	runPython(r, rnd.Fork(), cfg)
 	return r.Close()
 }
